@@ -33,17 +33,23 @@ Record fixes := { fx_skip_self : bool;       (* children(): never yield the call
                   fx_parents_seen : bool;    (* parents(): stop at the first repeated PID *)
                   fx_parent_reuse : bool;    (* parent(): identity pre-check before the lowest-PID stop *)
                   fx_parents_nsp : bool;     (* parents(): an ancestor that vanished mid-walk ends the chain *)
-                  fx_mono : bool }.          (* age tests compare start times since boot *)
+                  fx_mono : bool;            (* age tests compare start times since boot *)
+                  fx_ident_some : bool }.    (* _start_times tests "_ident[1] is not None" (true, the code as it
+                                                is) -- false = a truthiness test, which takes tick 0 for unknown *)
 Definition as_is : fixes :=
-  {| fx_skip_self := true; fx_parents_seen := true; fx_parent_reuse := true; fx_parents_nsp := true; fx_mono := true |}.
+  {| fx_skip_self := true; fx_parents_seen := true; fx_parent_reuse := true; fx_parents_nsp := true; fx_mono := true; fx_ident_some := true |}.
 Definition before_fixes : fixes :=
-  {| fx_skip_self := false; fx_parents_seen := false; fx_parent_reuse := false; fx_parents_nsp := false; fx_mono := false |}.
+  {| fx_skip_self := false; fx_parents_seen := false; fx_parent_reuse := false; fx_parents_nsp := false; fx_mono := false; fx_ident_some := true |}.
 (* the code before the fifth repair only (e49a6c9: age tests on one clock) *)
 Definition before_mono_fix : fixes :=
-  {| fx_skip_self := true; fx_parents_seen := true; fx_parent_reuse := true; fx_parents_nsp := true; fx_mono := false |}.
+  {| fx_skip_self := true; fx_parents_seen := true; fx_parent_reuse := true; fx_parents_nsp := true; fx_mono := false; fx_ident_some := true |}.
+(* NOT a version of the code: the code as it is with a truthiness test on _ident[1] *)
+Definition ident_falsy_variant : fixes :=
+  {| fx_skip_self := true; fx_parents_seen := true; fx_parent_reuse := true; fx_parents_nsp := true; fx_mono := true;
+     fx_ident_some := false |}.
 (* the code between the first three repairs and the fourth *)
 Definition before_nsp_fix : fixes :=
-  {| fx_skip_self := true; fx_parents_seen := true; fx_parent_reuse := true; fx_parents_nsp := false; fx_mono := false |}.
+  {| fx_skip_self := true; fx_parents_seen := true; fx_parent_reuse := true; fx_parents_nsp := false; fx_mono := false; fx_ident_some := true |}.
 
 (* the caller: a Process object created earlier.  [o_ident] = start ticks read by
    _get_ident() when it was created; [o_ctime] = the create_time() cache
@@ -53,7 +59,11 @@ Definition before_nsp_fix : fixes :=
    cached value - that offset: it equals [o_ident] unless the boot offset changed between
    the cached read and the call (see [clock_obj] below).
    _gone/_pid_reused are False (a fresh object; the sticky flags belong to C01). *)
-Record pobj := { o_pid : Z; o_ident : Z; o_ctime : option Z }.
+Record pobj := { o_pid : Z; o_ident : Z; o_ctime : option Z; o_known : bool }.
+(* self._ident[1]: the start time since boot read when the object was created, or None when it
+   could not be read then (AccessDenied).  0 is a value (init, kthreadd, PID 1/2 of a container),
+   not "unknown": [o_known] says which, [o_ident] is meaningful only when it is true. *)
+Definition ident_opt (o : pobj) : option Z := if o_known o then Some (o_ident o) else None.
 
 Definition memz (x : Z) (l : list Z) : bool := existsb (Z.eqb x) l.
 Definition lookup (t : table) (pid : Z) : option kproc := find (fun e => kp_pid e =? pid) t.
@@ -80,7 +90,7 @@ Definition proc_new (t : table) (gone : list Z) (pid : Z) : outcome Z :=
 Definition raise_if_pid_reused (t : table) (o : pobj) : outcome unit :=
   match lookup t (o_pid o) with
   | None => Val tt
-  | Some e => if kp_start e =? o_ident o then Val tt else Exc NoSuchProcess
+  | Some e => if o_known o && (kp_start e =? o_ident o) then Val tt else Exc NoSuchProcess
   end.
 
 (* self.create_time(): cached value, else a fresh read of /proc/<pid>/stat *)
@@ -100,7 +110,12 @@ Definition self_ctime (t : table) (o : pobj) : outcome Z :=
 (* the caller's side of an age test: self.create_time(), or (repair) the start time since
    boot kept in the identity *)
 Definition caller_start (fx : fixes) (t : table) (o : pobj) : outcome Z :=
-  if fx_mono fx then Val (o_ident o) else self_ctime t o.
+  if fx_mono fx then
+    match ident_opt o with
+    | Some s => if fx_ident_some fx || negb (s =? 0) then Val s else self_ctime t o
+    | None => self_ctime t o       (* unknown identity: fall back to create_time() on both sides *)
+    end
+  else self_ctime t o.
 
 Definition child_ok (fx : fixes) (t : table) (gone : list Z) (o : pobj) (q : Z) : bool :=
   match proc_new t gone q with
@@ -181,7 +196,7 @@ Definition parent (fx : fixes) (t : table) (gone : list Z) (cache : option Z) (o
     end.
 
 (* the objects parent() returns are fresh, with create_time() already cached *)
-Definition obj_of (ps : Z * Z) : pobj := {| o_pid := fst ps; o_ident := snd ps; o_ctime := Some (snd ps) |}.
+Definition obj_of (ps : Z * Z) : pobj := {| o_pid := fst ps; o_ident := snd ps; o_ctime := Some (snd ps); o_known := true |}.
 
 (* after the first pids() call the cache holds the lowest listed PID *)
 Definition cache_after (t : table) (cache : option Z) : option Z :=
@@ -245,4 +260,4 @@ Definition run_clock (ident : Z) (k0 : clk) (evs : list cev) : clk * option Z :=
 (* the caller object as the modelled call sees it after that history *)
 Definition clock_obj (pid ident : Z) (k0 : clk) (evs : list cev) : pobj :=
   let (k, c) := run_clock ident k0 evs in
-  {| o_pid := pid; o_ident := ident; o_ctime := option_map (fun w => w - k_eff k) c |}.
+  {| o_pid := pid; o_ident := ident; o_ctime := option_map (fun w => w - k_eff k) c; o_known := true |}.
